@@ -2,6 +2,7 @@ package main
 
 import (
 	"fmt"
+	"os"
 	"sort"
 
 	hg "github.com/mosaicnetworks/babble/src/hashgraph"
@@ -622,6 +623,10 @@ func (nw *Network) FastForward(n *SimNode) error {
 		}
 		n.AnchorAtReset[n.App.Epoch] = lb
 		n.AnchorRRAtReset[n.App.Epoch] = lrr
+		if os.Getenv("VERIF_TRACE_FF") != "" {
+			fmt.Fprintf(os.Stderr, "TRACEFF step=%d node %d offers=%v chosen=%d (rr %d) own_last_before=%d last_block_after=%d app_epoch=%d restores %d->%d store=%s incarnation=%d\n",
+				nw.Step, n.Idx, nw.ffOffers, lb, lrr, ownLast, n.Node.GetLastBlockIndex(), n.App.Epoch, prevRestores, n.App.Restores, n.Opts.Store, n.Incarnation)
+		}
 		if lb < ownLast {
 			nw.Res.count("fastforward_to_anchor_below_own_last_block", 1)
 		}
